@@ -62,6 +62,22 @@ static void annotate(hwloc_topology_t t)
   }
   /* non-ASCII bytes are documented to be dropped by the export: not part of what must round-trip */
   for (unsigned i = 0; i < n; i++) hwloc_modify_infos(&objs[i]->infos, HWLOC_MODIFY_INFOS_OP_REMOVE, "UTF8", NULL);
+  /* info names, subtypes and object names that the importers special-case when they read a hwloc 2.x document (moved from
+   * the root object to the topology, "Size"-like values given a KiB suffix, OS-device type words derived from them): in the
+   * v3 round trip they are ordinary strings.  They are set through the API: a fixture would pass through the importer
+   * before the first export and could not show the difference (seeded change C05-misc-memorymodule-size-import) */
+  {
+    hwloc_obj_t root = hwloc_get_root_obj(t);
+    static const char *ROOTNAMES[] = { "Backend", "SyntheticDescription", "LinuxCgroup", "MemoryTiersNr", "OSName", "HostName", "Architecture" };
+    for (unsigned k = 0; k < sizeof(ROOTNAMES) / sizeof(ROOTNAMES[0]); k++) hwloc_obj_add_info(root, ROOTNAMES[k], "c05-root-value");
+    hwloc_obj_t m = hwloc_topology_insert_misc_object(t, root, "DIMM_A1");
+    if (m) { hwloc_obj_set_subtype(t, m, "MemoryModule"); hwloc_obj_add_info(m, "Vendor", "ACME"); hwloc_obj_add_info(m, "Size", "16GiB"); hwloc_obj_add_info(m, "Size", "16777216KiB"); m->userdata = NULL; }
+    m = hwloc_topology_insert_misc_object(t, root, "Fan1");
+    if (m) { hwloc_obj_add_info(m, "Size", "120mm"); m->userdata = NULL; }
+    for (hwloc_obj_t o = hwloc_get_next_osdev(t, NULL); o; o = hwloc_get_next_osdev(t, o)) {
+      hwloc_obj_add_info(o, "Size", "1000"); hwloc_obj_add_info(o, "CXLRAMSize", "4096"); hwloc_obj_add_info(o, "SectorSize", "512"); hwloc_obj_add_info(o, "Backend", "CUDA");
+    }
+  }
   hwloc_obj_add_info(hwloc_get_root_obj(t), "RootInfo", "a&b");
   hwloc_modify_infos(hwloc_topology_get_infos(t), HWLOC_MODIFY_INFOS_OP_ADD, "Topo<Info>", "t'\"&");
   free(objs);
@@ -218,6 +234,20 @@ int main(int argc, char **argv)
       hwloc_topology_t t1 = NULL;
       if (MC_TRY(30000)) { t1 = hist_build(&h1); mc_try_end(); }
       if (mc_fault[0] || !t1) { mc_fault[0] = 0; mc_clear_san(); continue; }
+      /* cold export: the first consulting call after the modifying call is the export itself (whatever the call left to be
+       * refreshed lazily is still pending); exporting the untouched topology once more must give the same bytes, and that is
+       * also what the round trip below starts from (seeded change C05-distances-refresh-only-before-hetero: the exporter
+       * refreshed the distances after it had written the homogeneous ones) */
+      {
+        char *xc = NULL, *xw = NULL; int lc = 0, lw = 0, e1 = -9, e2 = -9;
+        if (MC_TRY(30000)) { e1 = hwloc_topology_export_xmlbuffer(t1, &xc, &lc, 0); if (e1 == 0) e2 = hwloc_topology_export_xmlbuffer(t1, &xw, &lw, 0); mc_try_end(); }
+        if (!mc_report_faults("cold-export") && e1 == 0 && e2 == 0) {
+          MC.transitions += 2; mc_count("cold_exports", 1);
+          if (lc != lw || memcmp(xc, xw, (size_t)lc)) { if (mc_case("%s", hist_text(&h1))) mc_violation("c05.export.first-differs", "%s :: the first export after the call and the next one differ: %s", mc_case_text(), canon_diff(xc, xw)); }
+        }
+        if (e1 == 0) hwloc_free_xmlbuffer(t1, xc);
+        if (e2 == 0) hwloc_free_xmlbuffer(t1, xw);
+      }
       char *key = canon_str(t1, CANON_ALL);
       int fresh = strset_add(&seen, key, strlen(key)); free(key);
       /* states that the alphabet already broke are C02's findings; states holding an emptied normal object (no PU, no child,
